@@ -131,10 +131,12 @@ func (c *conn) handleSubscribe(in *inEnvelope) error {
 	defer c.mu.Unlock()
 
 	if _, ok := c.subscriptions[id]; ok {
+		verifConn("sub.reject", id, nil)
 		return NewSafeError("duplicate subscription")
 	}
 
 	if len(c.subscriptions)+1 > c.maxSubscriptions {
+		verifConn("sub.reject", id, nil)
 		return NewSafeError("too many subscriptions")
 	}
 
@@ -194,6 +196,7 @@ func (c *conn) handleSubscribe(in *inEnvelope) error {
 
 		if err != nil {
 			if ErrorCause(err) == context.Canceled {
+				verifConn("run.fail", id, &initial)
 				go c.closeSubscription(id)
 				return nil, err
 			}
@@ -220,6 +223,7 @@ func (c *conn) handleSubscribe(in *inEnvelope) error {
 				Message:  SanitizeError(err),
 				Metadata: output.Metadata,
 			})
+			verifConn("run.fail", id, &initial)
 			go c.closeSubscription(id)
 
 			if _, ok := err.(SanitizedError); !ok {
@@ -248,9 +252,11 @@ func (c *conn) handleSubscribe(in *inEnvelope) error {
 			})
 		}
 
+		verifConn("run.ok", id, &initial)
 		initial = false
 		return nil, nil
 	}, c.minRerunIntervalFunc(c.ctx, query), c.alwaysSpawnGoroutineFunc(c.ctx, query))
+	verifConn("sub.accept", id, &initial)
 
 	return nil
 }
@@ -327,6 +333,7 @@ func (c *conn) handleMutate(in *inEnvelope) error {
 				Metadata: output.Metadata,
 			})
 
+			verifConn("run.fail", id, &initial)
 			go c.closeSubscription(id)
 
 			if ErrorCause(err) == context.Canceled {
@@ -348,10 +355,12 @@ func (c *conn) handleMutate(in *inEnvelope) error {
 
 		go c.rerunSubscriptionsImmediately()
 
+		verifConn("run.ok", id, &initial)
 		initial = false
 		go c.closeSubscription(id)
 		return nil, errors.New("stop")
 	}, c.minRerunIntervalFunc(c.ctx, query), c.alwaysSpawnGoroutineFunc(c.ctx, query))
+	verifConn("mut.accept", id, &initial)
 
 	return nil
 }
@@ -373,6 +382,9 @@ func (c *conn) closeSubscription(id string) {
 		runner.Stop()
 		delete(c.subscriptions, id)
 		c.subscriptionLogger.Unsubscribe(c.ctx, id)
+		verifConn("close.found", id, nil)
+	} else {
+		verifConn("close.miss", id, nil)
 	}
 }
 
@@ -384,6 +396,7 @@ func (c *conn) closeSubscriptions() {
 		runner.Stop()
 		delete(c.subscriptions, id)
 	}
+	verifConn("closeAll", "", nil)
 }
 
 func (c *conn) handle(e *inEnvelope) error {
